@@ -12,7 +12,7 @@ open Nuts.C04
 theorem parseJWT_accept {sup : List String} {E : Env} {j : Jws} {vs : List Verified}
     (h : parseJWT sup E j = .accept vs) :
     ∃ s k, j.sigs = [s] ∧ vs = [{ key := k, src := .resolver s.kid, alg := s.alg, idx := 0, overSigningInput := true }] ∧
-      E.resolve s.kid = some k ∧ s.alg ∈ sup ∧ E.verifies k s.alg 0 = true := by
+      E.resolve s.kid = some k ∧ s.alg ∈ sup ∧ E.verifies k s.alg 0 = true ∧ E.fits k s.alg = true := by
   unfold parseJWT at h
   split at h; · cases h
   split at h
@@ -21,33 +21,37 @@ theorem parseJWT_accept {sup : List String} {E : Env} {j : Jws} {vs : List Verif
     next k hk =>
     split at h; · cases h
     next hsup =>
+    split at h; · cases h
+    next hfit =>
     split at h
     · next hver =>
       injection h with h
-      exact ⟨s, k, hs, h.symm, hk, by simpa using hsup, hver⟩
+      exact ⟨s, k, hs, h.symm, hk, by simpa using hsup, hver, by simpa using hfit⟩
     · cases h
   · cases h
 
 theorem jwsLoop_single {sup : List String} {E : Env} {s : Sig} {vs : List Verified}
     (h : jwsLoop sup .library E 0 [s] = some vs) :
     ∃ k, vs = [{ key := k, src := .resolver s.kid, alg := s.alg, idx := 0, overSigningInput := true }] ∧
-      E.resolve s.kid = some k ∧ s.alg ∈ sup ∧ E.verifies k s.alg 0 = true := by
+      E.resolve s.kid = some k ∧ s.alg ∈ sup ∧ E.verifies k s.alg 0 = true ∧ E.fits k s.alg = true := by
   unfold jwsLoop at h
   split at h; · cases h
   next hsup =>
   split at h; · cases h
   next k hk =>
+  split at h; · cases h
+  next hfit =>
   simp only at h
   split at h; · cases h
   next hver =>
   unfold jwsLoop at h
   simp at h
-  exact ⟨k, h.symm, hk, by simpa using hsup, by simpa using hver⟩
+  exact ⟨k, h.symm, hk, by simpa using hsup, by simpa using hver, by simpa using hfit⟩
 
 theorem parseJWS_accept_fixed {sup : List String} {E : Env} {j : Jws} {vs : List Verified}
     (h : parseJWS sup .exactlyOne .library E j = .accept vs) :
     ∃ s k, j.sigs = [s] ∧ vs = [{ key := k, src := .resolver s.kid, alg := s.alg, idx := 0, overSigningInput := true }] ∧
-      E.resolve s.kid = some k ∧ s.alg ∈ sup ∧ E.verifies k s.alg 0 = true := by
+      E.resolve s.kid = some k ∧ s.alg ∈ sup ∧ E.verifies k s.alg 0 = true ∧ E.fits k s.alg = true := by
   unfold parseJWS at h
   split at h; · cases h
   split at h; · cases h
@@ -61,8 +65,8 @@ theorem parseJWS_accept_fixed {sup : List String} {E : Env} {j : Jws} {vs : List
     · next vs' hloop =>
       injection h with h
       subst h
-      obtain ⟨k, h1, h2, h3, h4⟩ := jwsLoop_single hloop
-      exact ⟨s, k, rfl, h1, h2, h3, h4⟩
+      obtain ⟨k, h1, h2, h3, h4, h5⟩ := jwsLoop_single hloop
+      exact ⟨s, k, rfl, h1, h2, h3, h4, h5⟩
     · cases h
 
 theorem dpop_accept {sup : List String} {typ : String} {E : Env} {c : Bool} {j : Jws} {vs : List Verified}
